@@ -119,6 +119,14 @@ func (c *Ctx) Violate(kind, what, detail string, replay any) {
 	}
 }
 
+// Scratch returns a throw-away context (same model connection) whose counts and violations are not reported: a
+// runner judges an outcome there first and, when it would be reported, reproduces the scenario alone before judging
+// it for real — wall-clock scenarios run in parallel on a loaded machine must not raise alarms the code did not earn.
+func (c *Ctx) Scratch() *Ctx {
+	return &Ctx{Prop: c.Prop, Tier: c.Tier, Seed: c.Seed, Rng: c.Rng, Lean: c.Lean, maxViol: 8,
+		Res: &Result{Stats: map[string]int{}, Samples: []any{}, Violations: []Violation{}}, distinct: map[uint64]struct{}{}}
+}
+
 func (c *Ctx) Failed() bool {
 	c.mu.Lock()
 	defer c.mu.Unlock()
